@@ -708,6 +708,16 @@ std::vector<OptRef> collect_opts(Rng &r, const json &opts)
 static const char *TITLES[] = {"t10", "t1", "a=b", "t", "x|y", "it's", "", "T1", "T0", "a b", "q'x"};
 static const int NT = 8;
 
+// a title from the pool; in case-insensitive runs half of them with the letter case flipped
+static std::string pool_title(Rng &r, bool flip_case)
+{
+	std::string t = TITLES[r.below(NT)];
+	if (flip_case && r.chance(1, 2))
+		for (auto &c : t)
+			c = isupper((unsigned char)c) ? (char)tolower((unsigned char)c) : (char)toupper((unsigned char)c);
+	return t;
+}
+
 // a title as written in a path: bare, properly quoted, or quoted and malformed
 static std::string path_title(Rng &r, const std::string &t)
 {
@@ -826,20 +836,20 @@ json gen_api_step(Rng &r, int cl, int ctx, const std::vector<OptRef> &refs, cons
 		unsigned k = (unsigned)r.below(6);
 		if (k < 2 && (fl & F_TITLE) && (fl & F_MULTI)) {
 			s["op"] = "addtsec";
-			s["title"] = TITLES[r.below(NT)];
+			s["title"] = pool_title(r, g.flip_title_case);
 		} else if (k == 2) {
 			s["op"] = "rmnsec";
 			s["idx"] = (unsigned)r.below(4);
 		} else if (k == 3 && (fl & F_TITLE)) {
 			s["op"] = "rmtsec";
-			s["title"] = TITLES[r.below(NT)];
+			s["title"] = pool_title(r, g.flip_title_case);
 		} else if (k == 4) {
 			s["op"] = "rmsec";
 			std::string p = ref.decl["n"].get<std::string>();
 			if (fl & F_MULTI)
 			{
 				static const char *badidx[] = {"1st", "0x", "2.0", "-1", " 1", "1 ", "0x1"};
-				p += "=" + ((fl & F_TITLE) ? path_title(r, TITLES[r.below(NT)]) : (r.chance(1, 4) ? std::string(badidx[r.below(7)]) : std::to_string(r.below(3))));
+				p += "=" + ((fl & F_TITLE) ? path_title(r, pool_title(r, g.flip_title_case)) : (r.chance(1, 4) ? std::string(badidx[r.below(7)]) : std::to_string(r.below(3))));
 			}
 			// a nested section is sometimes addressed by one path from the top instead of step by step
 			if (!ref.at.empty() && r.chance(1, 3)) {
@@ -849,7 +859,7 @@ json gen_api_step(Rng &r, int cl, int ctx, const std::vector<OptRef> &refs, cons
 			s["name"] = p;
 		} else if ((fl & F_TITLE) && (fl & F_MULTI)) {
 			s["op"] = "addtsec";
-			s["title"] = TITLES[r.below(NT)];
+			s["title"] = pool_title(r, g.flip_title_case);
 		} else {
 			s["op"] = "getters";
 		}
